@@ -65,7 +65,11 @@ type MwCase struct {
 	NIP11   *mwNIP11       `json:"nip11,omitempty"`
 	Events  []simrt.EvSpec `json:"events"`
 	Clients []mwClient     `json:"clients"`
-	Sched   simrt.Schedule `json:"sched"`
+	// LateFrom > 0: clients from that index on connect only after every earlier
+	// session has ended (connections following one another on one middleware
+	// value; state must not survive a connection)
+	LateFrom int            `json:"late_from,omitempty"`
+	Sched    simrt.Schedule `json:"sched"`
 }
 
 type mwEngine struct{ prop string }
@@ -98,6 +102,9 @@ func (e mwEngine) Gen(t *rapid.T, tier string) any {
 		ntags := rapid.SampledFrom([]int{0, lim - 1, lim, lim + 1}).Draw(t, "ntags")
 		for j := 0; j < ntags; j++ {
 			ev.Tags = append(ev.Tags, []string{"t", fmt.Sprintf("v%d", j)})
+		}
+		if e.prop == "C17" && rapid.IntRange(0, 2).Draw(t, "ptag") == 0 {
+			ev.Tags = append(ev.Tags, []string{"p", ref.Authors[rapid.IntRange(0, 1).Draw(t, "pwho")].Pubkey})
 		}
 		ev.Content = strings.Repeat("x", rapid.SampledFrom([]int{0, max(lim-1, 0), lim, lim + 1, 40}).Draw(t, "contentlen"))
 		ev.Content += "" // ASCII only: length in bytes = length in characters
@@ -145,6 +152,20 @@ func (e mwEngine) Gen(t *rapid.T, tier string) any {
 					f := simrt.FilterSpec{Kinds: []int64{rapid.SampledFrom([]int64{1, 7}).Draw(t, "fkind")}}
 					if rapid.IntRange(0, 1).Draw(t, "fauth") == 0 {
 						f.Authors = []string{ref.Authors[0].Pubkey}
+					}
+					// tag conditions: several values per name (an event may satisfy one
+					// name twice) and several names (all must be satisfied)
+					if rapid.IntRange(0, 1).Draw(t, "ftags") == 0 {
+						f.Tags = map[string][]string{}
+						if rapid.IntRange(0, 3).Draw(t, "ft") > 0 {
+							f.Tags["t"] = [][]string{{"v0"}, {"v0", "v1"}, {"v1", "v2", "v3"}}[rapid.IntRange(0, 2).Draw(t, "ftv")]
+						}
+						if rapid.IntRange(0, 1).Draw(t, "fp") == 0 {
+							f.Tags["p"] = []string{ref.Authors[0].Pubkey}
+						}
+						if rapid.IntRange(0, 2).Draw(t, "fnokind") == 0 {
+							f.Kinds = nil
+						}
 					}
 					m.Filter = &f
 				}
@@ -279,6 +300,9 @@ func (e mwEngine) Gen(t *rapid.T, tier string) any {
 			cl.Down = append(cl.Down, d)
 		}
 		c.Clients = append(c.Clients, cl)
+	}
+	if len(c.Clients) >= 2 && rapid.IntRange(0, 3).Draw(t, "late") == 0 {
+		c.LateFrom = len(c.Clients) - 1
 	}
 	c.Sched = GenSchedule(t, 1200)
 	return c
@@ -673,25 +697,50 @@ func (e mwEngine) Exec(t *testing.T, cc any) *simrt.Result {
 				mwCheckMetrics(sim, c, cls, down, reg, stack)
 			}
 		}
-		for _, k := range cls {
-			k.Serve(h)
+		all := cls
+		phase := func(from, to int) bool {
+			cls = all[:to]
+			for _, k := range all[from:to] {
+				k.Serve(h)
+			}
+			for i := 0; i < 64; i++ {
+				if s := sim.DriveAll(gauge); s != simrt.Quiescent {
+					sim.Violate(c.Prop, "deadlock", nil, "scheduler status %d: %v", s, sim.S.ParkedNames())
+					return false
+				}
+				done := true
+				for _, k := range cls {
+					if k.Paused() {
+						done = false
+						k.Resume()
+						st.Fault("reader-stall")
+					}
+				}
+				if done {
+					break
+				}
+			}
+			return true
 		}
-		for i := 0; i < 64; i++ {
-			if s := sim.DriveAll(gauge); s != simrt.Quiescent {
+		if c.LateFrom > 0 && c.LateFrom < len(all) {
+			if !phase(0, c.LateFrom) {
+				return
+			}
+			gauge()
+			for _, k := range cls {
+				k.Cancel()
+			}
+			if s := sim.Drive(); s != simrt.Quiescent {
 				sim.Violate(c.Prop, "deadlock", nil, "scheduler status %d: %v", s, sim.S.ParkedNames())
 				return
 			}
-			done := true
-			for _, k := range cls {
-				if k.Paused() {
-					done = false
-					k.Resume()
-					st.Fault("reader-stall")
-				}
+			gauge()
+			st.Fault("reconnect-after-session-end")
+			if !phase(c.LateFrom, len(all)) {
+				return
 			}
-			if done {
-				break
-			}
+		} else if !phase(0, len(all)) {
+			return
 		}
 		gauge()
 		mwJudge(sim, c, cls, down, stack)
